@@ -549,7 +549,6 @@ def pid_overflow(mid, mu):
 # causes of the open findings, in attribution priority
 CAUSES = [
     "xcdr1-parameter-id-overflows-u16",                       # D64
-    "char8-above-127-written-as-two-bytes",                   # D63
     "member-ids-collide-mod-2^16",                            # D15
     "xcdr1-member-id-needs-extended-pid",                     # D68
     "xcdr1-member-larger-than-65535-bytes",                   # D68
@@ -568,11 +567,8 @@ def constructs(t, v, ver):
     case really contains that construct (so a violation inside the proved subset is never suppressed)."""
     out = set()
     for (st, sv, top) in pairs(t, v):
-        if st[0] == "prim" and st[1] == "c8" and sv >= 128:
-            out.add("char8-above-127-written-as-two-bytes")
+        # (D63 repaired: CHAR8 values 128..255 are inside the subset now)
         if st[0] in ("seq", "arr"):
-            if st[1] == ("prim", "c8") and any(x >= 128 for x in sv):
-                out.add("char8-above-127-written-as-two-bytes")
             if st[0] == "seq" and len(sv) > 0 and not size_pos(st[1], ver):
                 out.add("sequence-of-zero-size-elements-rejected")
         if st[0] != "struct":
@@ -1490,10 +1486,10 @@ def gen_union_value(r, t, kn, ver):
 
 
 UNION_CAUSES = [
-    "xcdr1-appendable-union-decoder-reads-dheader",        # U1
-    "union-in-collection-serialized-as-final",             # U2
-    "mutable-union-reader-position-not-advanced",          # U3
-    "union-discriminator-selects-no-branch-not-decodable",  # U4
+    # D77, D78, D79, D80 are repaired (fixes/D7x-xcdr.patch): no union construct is excused any more, except that an
+    # XCDR1 mutable union whose member id is 1 meets the open finding D67 (PID 1 is the list terminator) - and
+    # `derive` numbers the branches from 1
+    "xcdr1-mutable-member-id-1-is-sentinel",
 ]
 
 
@@ -1501,16 +1497,8 @@ def union_constructs(t, v, ver):
     """constructs around unions the implementation does not round-trip (each a known finding, see notes/xcdr.md F8)"""
     out = set()
     for (tt, vv, _) in pairs(t, v):
-        if tt[0] == "union":
-            if tt[1] == "A" and ver == 1:
-                out.add(UNION_CAUSES[0])
-            if tt[1] == "M":
-                out.add(UNION_CAUSES[2])
-            if vv[2] is None:
-                out.add(UNION_CAUSES[3])
-        if tt[0] in ("seq", "arr") and tt[1][0] == "union" and len(vv) > 0:
-            if tt[1][1] == "M" or (tt[1][1] == "A" and ver == 2):
-                out.add(UNION_CAUSES[1])
+        if tt[0] == "union" and tt[1] == "M" and ver == 1 and vv[2] is not None and vv[2][0] % 16384 == 1:
+            out.add(UNION_CAUSES[0])
     return out
 
 
